@@ -83,6 +83,7 @@ def directed_asym_configs():
         for lv in range(dho + 1, d + dho + 1):
             qm[lv] = {"HL": 2, "LH": 2, "HH": 3}
         desc["qm"] = qm
+        desc.pop("meta", None)
         out.append(CodecFeatures(G.from_description(desc), name="cf"))
     return out
 
